@@ -1,5 +1,6 @@
 import TruthModel.Props.C18
 import TruthModel.Props.C18Msg
+import TruthModel.Props.C18MsgFile
 open TruthModel.C18
 #print axioms dummy_same_size
 #print axioms offsets_stable
@@ -25,3 +26,6 @@ open TruthModel.C18
 #print axioms exports_complete
 #print axioms exports_sound
 #print axioms implicitLen_covers
+#print axioms msg_export_indices_written
+#print axioms writeScripts_msg_offsets
+#print axioms lookupNat_offsets_inj
